@@ -161,6 +161,7 @@ impl DefaultInputTextPlugin {
         let ac_input = aho_corasick::Input::new(cur).anchored(Anchored::No);
 
         for m in checker.find_iter(ac_input) {
+            verif_point!("default_input_text:fast_match");
             let replacement = self.replacements[m.pattern()].as_str();
             replacer.replace_ref(m.start()..m.end(), replacement);
         }
@@ -235,6 +236,7 @@ impl DefaultInputTextPlugin {
         len: usize,
         ch: char,
     ) {
+        verif_point!("default_input_text:slow_char");
         match data.next() {
             Some(ch2) => {
                 if ch2 == ch {
